@@ -76,7 +76,7 @@ structure St where
   inputs : List Nat
   outputs : List TxOut
   unused : List Script
-  deriving Repr, Inhabited
+  deriving Repr, Inhabited, DecidableEq
 
 structure Tx where
   inputs : List Nat
